@@ -168,8 +168,25 @@ class Search:
                     else:
                         marker = False
                         break
+            def _set_member(t):
+                t = strip_conv(t)
+                if t[0] == 'un' and t[1] == '!':
+                    t = strip_conv(t[3])
+                if t[0] == 'bin' and t[1] in ('==', '!=', '>', '<'):
+                    sides = [strip_conv(x) for x in (t[2], t[3])]
+                    calls = [x for x in sides if x[0] == 'mcall']
+                    t = calls[0] if len(calls) == 1 else t
+                return t[0] == 'mcall' and t[1].split('::')[-1] in ('count', 'contains') and t[2][0] == 'var' and \
+                    (self.u.decl(t[2][1]) or {}).get('ctype', '').startswith(('std::set<', 'std::unordered_set<')) and \
+                    tuple(strip_conv(a) for a in t[3]) == (uvar,)
             if marker:
                 self.closed_guard = (scan['i'], marker)
+            elif atoms and all(_set_member(t) for t, _ in atoms):
+                # a closed set kept in a std::set / unordered_set: the same conditional obligation, but the polarity and the
+                # insertion into the set are not modelled - not decided (never a violation)
+                self.unknown.append('the neighbourhood scan is skipped under a set-membership test of the removed vertex (a closed '
+                                    'set kept in a std::set): the rule models the vector<bool> form only')
+                return
             else:
                 self.problems.append(('scan-one', scan['i'], 'the neighbourhood scan is conditional or nested: not exactly one '
                                                              'scan per removed element'))
